@@ -45,7 +45,8 @@ def main():
             shutil.rmtree(os.path.join(wt, 'tests'), ignore_errors=True)
             return ok, out[-1500:]
         elif demo_sh:
-            rc, out = sh('sh %s' % os.path.join(md, demo_sh[0]), cwd=wt)
+            sh('cargo build --offline 2>&1 | tail -2', cwd=wt)
+            rc, out = sh('bash %s' % os.path.join(md, demo_sh[0]), cwd=wt)
             return rc == 0, out[-1500:]
         return None, 'no demo'
     base_ok, base_out = run_demo()
